@@ -1315,6 +1315,126 @@ func customSchema(preset string, shared bool) []typeSpec {
 	return []typeSpec{things, others}
 }
 
+var contentTypes = []string{"", mediaType, mediaType + "; charset=utf-8", mediaType + `; profile="p"`, mediaType + `; ext="e"`,
+	"application/json", "text/plain", "APPLICATION/VND.API+JSON", "application/x-www-form-urlencoded", "garbage;;"}
+
+// request documents written by hand, byte for byte
+var rawDocuments = []string{
+	// repeated members: strings (last wins, null stores ""), case-insensitive names
+	`{"data":{"type":"x","type":"things","id":"1"}}`, `{"data":{"type":"things","type":"x","id":"1"}}`,
+	`{"data":{"type":"things","type":null,"id":"1"}}`, `{"data":{"type":null,"type":"things","id":"1"}}`,
+	`{"data":{"type":"things","id":"2","ID":"1"}}`, `{"data":{"type":"things","id":"1","Id":null}}`, `{"data":{"TYPE":"x","type":"things","iD":"1"}}`,
+	// repeated "data": merged field by field, null is a no-op
+	`{"data":{"type":"x","id":"1"},"data":{"type":"things"}}`, `{"data":{"type":"things","id":"1"},"data":null}`, `{"data":null,"data":{"type":"things","id":"1"}}`,
+	`{"data":{"type":"things","id":"1"},"DATA":{"id":"2"}}`, `{"data":{"type":"things","id":"1"},"data":5}`, `{"data":5,"data":{"type":"things","id":"1"}}`,
+	`{"data":{"type":"things","id":"1","attributes":{"a":1}},"data":{"attributes":{"b":2}}}`,
+	// repeated maps: merged, null resets
+	`{"data":{"type":"things","id":"1","attributes":{"a":1,"a":2,"b":3},"attributes":{"c":1}}}`, `{"data":{"type":"things","id":"1","attributes":{"a":1},"attributes":null}}`,
+	`{"data":{"type":"things","id":"1","attributes":null,"attributes":{"a":1}}}`, `{"data":{"type":"things","id":"1","attributes":{"a":1,"A":2}}}`,
+	`{"data":{"type":"things","id":"1","attributes":{"a":1},"ATTRIBUTES":{"b":[1,{"c":null}]}}}`,
+	`{"data":{"type":"things","id":"1","relationships":{"r":{"data":{"type":"a","id":"b"}},"r":{}}}}`, `{"data":{"type":"things","id":"1","relationships":{"r":{},"r":{"data":{"type":"a","id":"b"}}}}}`,
+	`{"data":{"type":"things","id":"1","relationships":{"r":{"data":null,"data":{"type":"a","id":"b"}},"q":{"data":[]}},"relationships":{"q":{"data":[{"type":"c","id":"d"}]}}}}`,
+	`{"data":{"type":"things","id":"1","relationships":{"r":{"data":{"type":"a","id":"b"}}},"relationships":null}}`,
+	`{"data":{"type":"things","id":"1","relationships":{"r":{"data":{"type":"a","id":"b"},"DATA":null}}}}`, `{"data":{"type":"things","id":"1","relationships":{"r":{"data":{"type":"a","id":"b","type":null}}}}}`,
+	`{"data":{"type":"things","id":"1","relationships":{"r":{"data":[{"type":"a","id":"b"},{"type":"c","id":"d"}],"data":[{"type":"e"}]}}}}`,
+	`{"data":{"type":"things","id":"1","relationships":{"r":{"data":{"type":"a","id":"b"},"data":5}}}}`, `{"data":{"type":"things","id":"1","relationships":{"r":{"data":5,"data":{"type":"a","id":"b"}}}}}`,
+	// linkage documents
+	`{"data":{"type":"others","id":"3"},"data":null}`, `{"data":null,"data":{"type":"others","id":"3"}}`, `{"data":[],"data":{"type":"others","id":"3"}}`,
+	`{"data":{"type":"others","id":"3","type":"things"}}`, `{"data":{"type":"others","id":3}}`, `{"data":{"type":"others","id":"3","meta":{"x":[1e5,-2]}}}`,
+	// add / remove documents: the slice is reused
+	`{"data":[{"type":"a","id":"b"},{"type":"c","id":"d"}],"data":[{"type":"e"}]}`, `{"data":[{"type":"a","id":"b"}],"data":null}`, `{"data":[{"type":"a","id":"b"}],"data":[]}`,
+	`{"data":[{"type":"a","id":"b"}],"data":null,"data":[{"type":"e"}]}`, `{"data":[{"type":"a","id":"b"}],"data":[],"data":[{"id":"f"}]}`,
+	`{"data":[{"type":"a","id":"b","type":"z","id":null}]}`, `{"data":[null,{"type":"a"}]}`, `{"data":[{"type":"a","id":"b"},{"type":"c","id":"d"}],"data":[null,null]}`,
+	`{"data":[{"type":"a","id":"b"},{"type":"c","id":"d"}],"data":[{"type":"e"},{"id":"f"},{"type":"g"}]}`,
+	`{"data":[{"type":"a","id":"b"},{"type":"c","id":"d"},{"type":"e","id":"f"}],"data":[{"type":"1"}],"data":[{"id":"2"},{"id":"3"},{"id":"4"},{"id":"5"},{"id":"6"}]}`,
+	`{"data":[{"type":"a","id":"b"}],"DATA":[{"ID":"c"},{}]}`, `{"data":[{"type":"a","id":"b"}],"data":[{"type":5}]}`, `{"data":[{"type":"a","id":"b"}],"data":{"type":"a"}}`,
+	// numbers: as ids, in skipped members, inside raw attribute values; out of float64 range
+	`{"data":{"type":"things","id":1}}`, `{"data":{"type":"things","id":"1","x":0}}`, `{"data":{"type":"things","id":"1","x":-0}}`, `{"data":{"type":"things","id":"1","x":1e999}}`,
+	`{"data":{"type":"things","id":"1","x":-1e999}}`, `{"data":{"type":"things","id":"1","x":1E+400}}`, `{"data":{"type":"things","id":"1","x":1e-999}}`,
+	`{"data":{"type":"things","id":"1","x":123456789012345678901234567890123456789012345678901234567890}}`,
+	`{"data":{"type":"things","id":"1","x":` + strings.Repeat("9", 400) + `}}`, `{"data":{"type":"things","id":"1","x":-` + strings.Repeat("9", 400) + `}}`,
+	`{"data":{"type":"things","id":"1","x":` + strings.Repeat("9", 400) + `.5}}`, `{"data":{"type":"things","id":"1","x":0.` + strings.Repeat("0", 400) + `1}}`,
+	`{"data":{"type":"things","id":"1","attributes":{"a":1e999}}}`, `{"data":{"type":"things","id":"1","attributes":{"a":[1.5,{"b":-2.5e-3}]}}}`, `{"data":{"type":"things","id":"1","attributes":{"a":1.0e+2,"b":2E5}}}`,
+	`{"data":{"type":"things","id":"1","x":01}}`, `{"data":{"type":"things","id":"1","x":1.}}`, `{"data":{"type":"things","id":"1","x":.5}}`, `{"data":{"type":"things","id":"1","x":-}}`,
+	`{"data":{"type":"things","id":"1","x":1e}}`, `{"data":{"type":"things","id":"1","x":+1}}`, `{"data":{"type":"things","id":"1","x":0x10}}`, `{"data":{"type":"things","id":"1","x":1e5e5}}`,
+	// strings: escapes in names and values, surrogates, control characters, bytes that are no UTF-8
+	`{"d\u0061ta":{"type":"things","id":"1"}}`, `{"data":{"t\u0079pe":"things","id":"\u0031"}}`, `{"data":{"type":"th\u0069ngs","id":"1"}}`, `{"data":{"type":"things","id":"1\n"}}`,
+	`{"data":{"type":"things","id":"\ud800"}}`, `{"data":{"type":"things","id":"1","x":"\ud800"}}`, `{"data":{"type":"things","id":"1","x":"\ud83d\ude00"}}`, `{"data":{"type":"things","id":"1","x":"\ude00\ud83d"}}`,
+	`{"data":{"type":"things","id":"1","x":"\ud800\u0041"}}`, `{"data":{"type":"things","id":"1","x":"\ud800\uZZZZ"}}`, `{"data":{"type":"things","id":"1","x":"\uD83D"}}`,
+	`{"data":{"type":"things","id":"1","x":"\q"}}`, `{"data":{"type":"things","id":"1","x":"\u12"}}`, `{"data":{"type":"things","id":"1","x":"a\/b\b\f\r\t\\\""}}`,
+	"{\"data\":{\"type\":\"things\",\"id\":\"1\",\"x\":\"a\nb\"}}", "{\"data\":{\"type\":\"things\",\"id\":\"1\",\"x\":\"a\tb\"}}", "{\"data\":{\"type\":\"things\",\"id\":\"1\",\"x\":\"\x7f\"}}",
+	"{\"data\":{\"type\":\"things\",\"id\":\"1\",\"x\":\"\xff\"}}", "{\"data\":{\"type\":\"things\",\"id\":\"1\xff\"}}", "{\"data\":{\"type\":\"things\",\"id\":\"1\",\"\xc3\":1}}",
+	"{\"data\":{\"type\":\"things\",\"id\":\"1\",\"x\":\"\xe2\x82\\\"}}", "{\"data\":{\"type\":\"things\",\"id\":\"\xc3\xa9\"}}",
+	// literals, structure, white space, trailing bytes, NUL, byte order mark
+	`{"data":{"type":"things","id":"1","x":tru}}`, `{"data":{"type":"things","id":"1","x":nul}}`, `{"data":{"type":"things","id":"1","x":True}}`, `{"data":{"type":"things","id":"1","x":[1,]}}`,
+	`{"data":{"type":"things","id":"1",}}`, `{"data":{"type":"things","id":"1"},}`, `{"data":{"type":"things" "id":"1"}}`, `{"data":{"type":"things","id":"1"}`, `{"data":{"type":"things","id":"1"}}}`,
+	`{'data':{"type":"things","id":"1"}}`, `{data:{"type":"things","id":"1"}}`, `[{"data":{"type":"things","id":"1"}}]`, `"data"`, `null`, `true`, `0`, ` null `, `nullx`, ``, ` `,
+	"\xef\xbb\xbf" + `{"data":{"type":"things","id":"1"}}`, `{"data":{"type":"things","id":"1"}}` + "\x00", `{"data":{"type":"things","id":"1"}}` + "\x00}", "\x00" + `{"data":{"type":"things","id":"1"}}`,
+	`{"data":{"type":"things","id":"1"}}` + "\x0c", `{"data":{"type":"things","id":"1"}}` + "\xc2\xa0", "\t\r\n " + `{ "data" : { "type" : "things" , "id" : "1" } }` + " \n",
+	`{"data":{"type":"things","id":"1","x":{"a":{"b":{"c":[[[{"d":null}]]]}}}}}`, `{"":{"":""},"data":{"type":"things","id":"1","":""}}`,
+}
+
+// a document glued from fragments that matter to the decoders
+func randRawDocument(r *rng.R) string {
+	ids := []string{`{"type":"others","id":"1"}`, `{"type":"things","id":"1"}`, `{"id":"2"}`, `{"type":"e"}`, `{}`, `null`, `{"type":"a","id":"b","type":null}`, `{"TYPE":"others","Id":"3"}`, `5`, `{"id":7}`}
+	value := func() string {
+		switch r.Intn(7) {
+		case 0:
+			return "null"
+		case 1:
+			return rng.Pick(r, ids)
+		case 2:
+			var xs []string
+			for n := r.Intn(4); n > 0; n-- {
+				xs = append(xs, rng.Pick(r, ids))
+			}
+			return "[" + strings.Join(xs, ",") + "]"
+		case 3:
+			return rng.Pick(r, []string{"0", "-1", "1.5", "1e5", "1e999", "-1E-999", "12345678901234567890", "1.0e+2", "true", `"x"`, `"\ud800"`, `"\u0031"`, "[]", "{}", `{"k":[1,2,{"z":null}]}`})
+		}
+		return rng.Pick(r, ids)
+	}
+	key := func(k string) string {
+		if r.Chance(1, 6) {
+			return randCase(k, r)
+		}
+		return k
+	}
+	if r.Chance(1, 2) {
+		// a linkage / members document
+		var ms []string
+		for n := r.Range(1, 3); n > 0; n-- {
+			ms = append(ms, `"`+key("data")+`":`+value())
+		}
+		if r.Chance(1, 4) {
+			ms = append(ms, `"meta":`+value())
+		}
+		return "{" + strings.Join(ms, rng.Pick(r, []string{",", " , ", ",\n"})) + "}" + rng.Pick(r, []string{"", "", "", " ", "\x00", "}"})
+	}
+	var docs []string
+	for n := r.Range(1, 2); n > 0; n-- {
+		var ms []string
+		for k := r.Range(1, 5); k > 0; k-- {
+			switch r.Intn(6) {
+			case 0:
+				ms = append(ms, `"`+key("type")+`":`+rng.Pick(r, []string{`"things"`, `"things"`, `"others"`, "null", "5", `"th\u0069ngs"`}))
+			case 1:
+				ms = append(ms, `"`+key("id")+`":`+rng.Pick(r, []string{`"1"`, `"1"`, `"2"`, "null", "1", `"\u0031"`}))
+			case 2:
+				ms = append(ms, `"`+key("attributes")+`":`+rng.Pick(r, []string{`{"a":1}`, `{"b":[1.5e3]}`, `{"a":1,"a":2,"A":3}`, "null", "[]", `{"a":1e999}`, "{}"}))
+			case 3:
+				ms = append(ms, `"`+key("relationships")+`":`+rng.Pick(r, []string{`{"r":{"data":` + value() + `}}`, `{"r":{"data":` + value() + `},"r":{"data":` + value() + `}}`, `{"r":{"data":` + value() + `,"data":` + value() + `},"q":{}}`, "null", "5", "{}"}))
+			case 4:
+				ms = append(ms, `"x":`+value())
+			default:
+				ms = append(ms, `"type":"things","id":"1"`)
+			}
+		}
+		docs = append(docs, `"`+key("data")+`":`+rng.Pick(r, []string{"{" + strings.Join(ms, ",") + "}", "{" + strings.Join(ms, ",") + "}", "{" + strings.Join(ms, ",") + "}", "null"}))
+	}
+	return "{" + strings.Join(docs, ",") + "}" + rng.Pick(r, []string{"", "", "", "\n", "x"})
+}
+
 func thingDoc(id string) body {
 	return treeBody(jobj(f("data", jobj(f("type", jstr("things")), f("id", jstr(id))))))
 }
@@ -2028,6 +2148,56 @@ func main() {
 			} {
 				b := p.b
 				emit(richSchema(15, 15, false), request{Method: p.m, Path: p.path, Accept: okAccept, Body: body{Tree: &b, Tail: tail}})
+			}
+		}
+		// 3d. request documents as raw text: repeated member names (which occurrence wins, merging of
+		// structs / maps / slices), wrong member types, numbers as ids, escapes in names and values,
+		// surrogates, bytes that are no UTF-8, numbers of every shape, NUL / BOM / truncation
+		for _, doc := range rawDocuments {
+			for _, p := range []struct{ m, path string }{
+				{"PATCH", "/things/1"}, {"POST", "/things"}, {"PATCH", "/things/1/one"},
+				{"PATCH", "/things/1/relationships/one"}, {"POST", "/things/1/relationships/many"}, {"DELETE", "/things/1/relationships/many"},
+			} {
+				emit(richSchema(15, 15, false), request{Method: p.m, Path: p.path, Accept: okAccept, Body: rawBody(doc)})
+			}
+		}
+		nraw := 2500
+		if h.Thorough() {
+			nraw = 100000
+		}
+		for i := 0; i < nraw; i++ {
+			h.Case(func(r *rng.R) sexp.Node {
+				p := rng.Pick(r, []struct{ m, path string }{
+					{"PATCH", "/things/1"}, {"PATCH", "/things/1"}, {"POST", "/things"}, {"PATCH", "/things/1/one"},
+					{"PATCH", "/things/1/relationships/one"}, {"POST", "/things/1/relationships/many"}, {"DELETE", "/things/1/relationships/many"},
+				})
+				return runCase(r, richSchema(15, 15, false), request{Method: p.m, Path: p.path, Accept: okAccept, Body: rawBody(randRawDocument(r)),
+					ContentType: rng.Pick(r, contentTypes)})
+			})
+		}
+		// 3e. request-targets as they arrive on the wire: percent-encoded path segments (an encoded slash
+		// inside an id, encoded type names, NUL, blanks, '?'), with and without a query
+		for _, target := range []string{
+			"/things/a%2Fb", "/things/a%2Fb/one", "/things/1%2Fone", "/things/1%2Frelationships%2Fone", "/th%69ngs/1", "/things%2F1",
+			"/things/%00", "/things/a%20b", "/things/1%3Fx", "/things/%C3%A9", "/things/%25", "/things/%5Ba%5D", "/things/1/relationships/%6Fne",
+			"/things/1/relation%73hips/one", "/things/v1?page%5Bsize%5D=1", "/things/v1?pa%67e[size]=1", "/things/v1?sort=a", "/things/1/%6Dany?Foo%5Bbar%5D=1",
+			"/things//1", "/things/1//", "//things/1", "/things/./1", "/things/../things/1", "/things/1;v=2", "/things/1#frag", "/%74hings",
+		} {
+			for _, m := range []string{"GET", "PATCH", "DELETE"} {
+				emit(richSchema(15, 15, false), request{Method: m, Target: target, Accept: okAccept, Body: thingDoc("1")})
+			}
+		}
+		// 3f. Content-Type of requests with a body: the handler does not look at it (JSON:API asks for 415
+		// when the media type carries parameters; the property's status list does not name 415)
+		for _, ct := range contentTypes {
+			for _, p := range []struct {
+				m, path string
+				b       body
+			}{
+				{"PATCH", "/things/1", thingDoc("1")}, {"POST", "/things", treeBody(jobj(f("data", jobj(f("type", jstr("things"))))))},
+				{"POST", "/things/1/relationships/many", membersDoc(jid("others", "1"))}, {"GET", "/things/1", rawBody("")},
+			} {
+				emit(richSchema(15, 15, false), request{Method: p.m, Path: p.path, Accept: okAccept, Body: p.b, ContentType: ct})
 			}
 		}
 		// 4. random schemas and requests
